@@ -37,6 +37,7 @@ func init() {
 			{ID: "C06.15", Desc: "a body that fails while it is serialised leaves nothing in the store (no error of a call is overwritten unseen)", Run: func(c *Ctx) { ruleNoDeadErrorValues(c, "C06.15") }, MinSites: 1},
 			{ID: "C06.16", Desc: "No-Store / Must-Understand in any letter case are recognised", Run: func(c *Ctx) { ruleC12_1(c); renameRule(c, "C12.1", "C06.16") }, MinSites: 1},
 			{ID: "C06.17", Desc: "no-store is seen wherever it stands in the field (the collector visits every directive)", Run: func(c *Ctx) { ruleCollectorVisitsEveryPair(c, "C06.17") }, MinSites: 1},
+			{ID: "C06.18", Desc: "the revalidation context's request directives are the parser's result for the request (no reduced copy)", Run: func(c *Ctx) { ruleContextCarriesParsedDirectives(c, "C06.18") }, MinSites: 2},
 		},
 	})
 }
